@@ -21,7 +21,7 @@ def run(job):
         pr = subprocess.run(["patch", "-p1", "-s", "-i", p], cwd=rp, stdout=subprocess.PIPE, stderr=subprocess.STDOUT, text=True)
         if pr.returncode: return (i, c, "PATCH-FAILED", pr.stdout[-100:])
         n = len(re.findall(r"^[+-][^+-]", open(p).read(), re.M))
-        r = subprocess.run([os.path.join(ROOT, "check"), i, "--repo", rp, "--no-evidence"], cwd=ROOT, stdout=subprocess.PIPE, stderr=subprocess.STDOUT, text=True)
+        r = subprocess.run([os.path.join(ROOT, "check"), i, "--repo", rp, "--no-evidence", "--no-replay"], cwd=ROOT, stdout=subprocess.PIPE, stderr=subprocess.STDOUT, text=True)
         viol = sorted({re.search(r"obligation=(\S+)", l).group(1) for l in r.stdout.split("\n") if l.startswith("VIOLATION")})
         und = [l for l in r.stdout.split("\n") if l.startswith("UNDECIDED")]
         if r.returncode == 1 and viol: return (i, c, "detected", "%d lines; %s" % (n, ",".join(viol)[:150]))
